@@ -38,6 +38,7 @@ def exhaustive_1d(maxlen=6, rng=8, steps=3, masklen=5, mrng=4, iadd=True, conver
     # (a) integer indices
     for n in range(maxlen + 1):
         p = ["alloc " + vals(base_vals(n))]
+        p += ["allocfill 7 %d" % n, "len 1", "setscalar 1 i:0 3"]
         p += ["getitem 0 %d" % i for i in range(-rng, rng + 1)]
         p += ["setscalar 0 i:%d 77" % i for i in range(-rng, rng + 1)]
         p += ["len 0"]
@@ -142,7 +143,7 @@ def wide_cells(n, w, off=10):
     return [off + i + 20 * k for i in range(n) for k in range(w)]
 
 
-def exhaustive_comp(w, maxlen=4, iadd=True, full=True):
+def exhaustive_comp(w, maxlen=4, iadd=True, full=True, elemset=False):
     """every component k < w of: the dense array, EVERY masked reference of it (all 0/1 masks), a handle copy;
     reads with every int index, writes (int, slice, mask, vector, in-place) THROUGH the component array — the
     storage dump shows where they land — and read-only propagation (array made read-only before / after)."""
@@ -156,8 +157,16 @@ def exhaustive_comp(w, maxlen=4, iadd=True, full=True):
             if iadd:
                 p += ["iadds 1 2", "allocc " + vals(base_vals(n, 1)), "iaddv 1 5"]
             yield "comp-dense", p
+            if elemset:
+                # writes THROUGH an element reference `a[i].x = v` (writable: lands in a[i]; read-only: the element is a copy)
+                q = ["allocw %d %s" % (w, vals(cells))] + ["elemset 0 %d %d %d" % (i, k, 90 + i) for i in range(-n - 1, n + 1)]
+                q += ["comp 0 %d" % k, "ro 0"] + ["elemset 0 %d %d 5" % (i, k) for i in range(n)] + ["len 1"]
+                yield "comp-elemref", q
         for bits in itertools.product((0, 1), repeat=n):
             cnt = sum(bits)
+            if elemset and cnt:
+                yield "comp-elemref", ["allocw %d %s" % (w, vals(cells)), "alloci " + vals(bits), "getmask 0 1"] + \
+                    ["elemset 2 %d %d %d" % (i, w - 1, 80 + i) for i in range(-cnt - 1, cnt + 1)] + ["comp 0 %d" % (w - 1)]
             for k in (range(w) if full or cnt in (1, 2) else (w - 1,)):
                 # views: 0 wide 1 mask 2 masked reference 3 its component array 4 data(cnt)
                 p = ["allocw %d %s" % (w, vals(cells)), "alloci " + vals(bits), "getmask 0 1", "comp 2 %d" % k, "len 3"]
@@ -166,7 +175,9 @@ def exhaustive_comp(w, maxlen=4, iadd=True, full=True):
                 p += ["setscalar 3 i:%d %d" % (i, 70 + i) for i in range(cnt)]
                 p += ["setscalar 3 s:N:N:-1 8", "getslice 3 s:N:N:N", "comp 0 %d" % k, "getitem 6 0", "copy 3", "len 7"]
                 if iadd:
-                    p += ["iadds 3 1", "iaddv 3 4"]
+                    # right-hand sides of the masked AND of the unmasked length (the masked kernel reads b[raw_ptr_index(i)])
+                    p += ["iadds 3 1", "iaddv 3 4", "allocc " + vals(base_vals(n, 1)), "iaddv 3 8"]
+                p += ["alloci " + vals([1] * n), "setscalarmask 3 %d 6" % (9 if iadd else 8)]
                 p += ["getitem 0 %d" % i for i in range(n)]
                 yield "comp-masked", p
                 # read-only: the component array of a read-only array / masked reference must refuse every write
@@ -339,6 +350,8 @@ def boolify(programs):
                 t[1] = fix_vals(t[1])
             elif t[0] in ("setscalar", "setscalarmask", "ifelses"):
                 t[3] = str(int(t[3]) % 2)
+            elif t[0] == "allocfill":
+                t[1] = str(int(t[1]) % 2)
             out.append(" ".join(t))
         yield kind, out
 
@@ -481,7 +494,12 @@ def exhaustive_varray(maxlen=4, rng=5, full=True):
                   "alloc " + vals(base_vals(2, 70)), "v setrow 1 s:N:N:N 9", "v setvec 1 s:N:N:N 3", "v getmask 1 1",
                   "v setvecmask 1 1 2", "v setsizevecmask 1 1 6", "v setrowmask 1 1 9", "v setsizemask 1 1 3",
                   "alloci " + vals([1] + [0] * (cnt - 1) if cnt else []), "v setsizemask 1 10 1", "v setrowmask 1 10 9",
-                  "v copy 1", "v len 0"]
+                  "v copy 1", "v len 0",
+                  # the four masked write paths with a NON-TRIVIAL start / step (raw_ptr_index(start + i*step), not raw_ptr_index(i)):
+                  # 1-D 11: sizes of cnt-1 rows, VArray 8: cnt-1 rows; 1-D 12: cnt-1 new sizes
+                  "alloci " + vals([1] * max(cnt - 1, 0)), "v newsizes 11 4", "v setsize 1 s:N:N:N 1", "v setvec 1 s:1:N:N 8",
+                  "v setsize 1 s:1:N:N 3", "alloci " + vals(list(range(2, max(cnt - 1, 0) + 2))), "v setsizevec 1 s:1:N:N 12",
+                  "v setsize 1 s:N:N:N 2", "v setrow 1 s:1:N:2 9", "v sizeslice 1 s:N:N:2", "v row 0 0"]
             yield "varray-mask", p
             # wrong mask lengths
             yield "varray-mask-mismatch", list(setup) + ["alloci " + vals(list(bits) + [1]), "v getmask 0 1",
